@@ -396,12 +396,14 @@ class PassFormula:
                    reject_desc: t.Set[str], fails_here: t.Any, helper_here: t.Any = FALSE) -> t.Any:
         if n.kind == 'cond':
             f = self._test_formula(n.ast, n, nz, {}, func, reject_desc, helper_here)
+            # (a test that raises into a local handler takes neither branch)
+            raised = self._exc_cond(n, func, nz, cfg, fails_here) if any(l2 == 'exc' for (l2, _x) in n.succ) else FALSE
             if f is None:
-                return TRUE if lb in ('T', 'F') else self._exc_cond(n, func, nz, cfg, fails_here)
+                return (TRUE if raised == FALSE else f_not(raised)) if lb in ('T', 'F') else self._exc_cond(n, func, nz, cfg, fails_here)
             if lb == 'T':
-                return f
+                return f if raised == FALSE else f_and(f, f_not(raised))
             if lb == 'F':
-                return f_not(f)
+                return f_not(f) if raised == FALSE else f_and(f_not(f), f_not(raised))
             return self._exc_cond(n, func, nz, cfg, fails_here)
         if n.kind == 'iter':
             if lb == 'T':
